@@ -194,6 +194,20 @@ def check_property(pid: str, tier: str) -> int:
                 return k
         return None
 
+    def scope_of(q):
+        """all-inputs: symbolic parameters (enumerated ones range over a whole finite domain: enum members, booleans, aliases);
+        bounded-instances: the body is executed on concrete instances (printer overrides / templates on hole strings): the sidecar says so;
+        syntactic: class frame"""
+        c_ = registry.CONTRACTS.get(q)
+        if c_ is None:
+            return "all-inputs"
+        if q.startswith("frame:"):
+            return "syntactic"
+        if "BOUNDED" in (c_.note or "") or getattr(c_, "bounded", False):
+            return "bounded-instances"
+        return "all-inputs"
+
+    scope_tot = {"all-inputs": [0, 0], "bounded-instances": [0, 0], "syntactic": [0, 0], "lemmas": [0, 0]}  # [obligations, discharged]
     for fr in freps:
         if fr["status"] == "undecided":
             undecided.append(f"{fr['function']}: {fr['reason']}")
@@ -207,9 +221,12 @@ def check_property(pid: str, tier: str) -> int:
                 known_hit.append((kf, r))
                 continue
             obligations += 1
-            ob_list.append({k: r[k] for k in ("obligation", "status", "backend", "seconds", "kind")})
+            sc_ = scope_of(fr["function"])
+            scope_tot[sc_][0] += 1
+            ob_list.append(dict({k: r[k] for k in ("obligation", "status", "backend", "seconds", "kind")}, scope=sc_))
             if r["status"] == "discharged":
                 discharged += 1
+                scope_tot[sc_][1] += 1
             elif r["status"] == "failed":
                 violations.append(("obligation", r))
             elif r["status"] == "unknown":
@@ -219,9 +236,11 @@ def check_property(pid: str, tier: str) -> int:
     for r in lres:
         solver_time += r["seconds"]
         obligations += 1
-        ob_list.append({k: r[k] for k in ("obligation", "status", "backend", "seconds", "kind")})
+        scope_tot["lemmas"][0] += 1
+        ob_list.append(dict({k: r[k] for k in ("obligation", "status", "backend", "seconds", "kind")}, scope="lemma (all inputs, induction)"))
         if r["status"] == "discharged":
             discharged += 1
+            scope_tot["lemmas"][1] += 1
         elif r["status"] == "failed":
             violations.append(("lemma", r))
         elif r["status"] == "unknown":
@@ -336,13 +355,25 @@ def check_property(pid: str, tier: str) -> int:
     trusted = sorted({a for fr in freps for a in fr.get("assumed_used", [])} | set(P.get("trusted", [])))
     dropped = sorted({d for fr in freps for d in fr.get("dropped", [])})
     from contracts import assumptions
+
+    by_scope = {"all-inputs": scope_tot["all-inputs"][1], "bounded-instances": scope_tot["bounded-instances"][1],
+                "syntactic": scope_tot["syntactic"][1], "lemmas (induction, all inputs)": scope_tot["lemmas"][1]}
+    proved_obl = scope_tot["all-inputs"][0] + scope_tot["lemmas"][0]
+    proved_dis = scope_tot["all-inputs"][1] + scope_tot["lemmas"][1]
     ev = {
         "property_id": pid, "tier": tier, "seed": seed, "level": P.get("level", "proof"),
         "coverage": {
-            "obligations": obligations, "discharged": discharged,
+            # proof-level counts: obligations over all inputs (symbolic parameters, loops by invariant) and induction lemmas only;
+            # obligations on bounded instances and syntactic frame checks are reported separately and are not counted as proved
+            "obligations": proved_obl, "discharged": proved_dis,
+            "bounded_instance_obligations": {"obligations": scope_tot["bounded-instances"][0], "discharged": scope_tot["bounded-instances"][1],
+                                             "labelled": "bounded", "proved": False},
+            "syntactic_obligations": {"obligations": scope_tot["syntactic"][0], "discharged": scope_tot["syntactic"][1]},
+            "rule": (oracle or {}).get("rule", "") or "obligations generated from the sidecar contracts of the listed functions",
             "checker_cmd": f"./check {pid} --tier {tier}",
             "trusted_base": trusted,
-            "functions_under_contract": [dict(fr.get("info") or {"function": fr["function"]}, status=fr["status"],
+            "discharged_by_scope": by_scope,
+            "functions_under_contract": [dict(fr.get("info") or {"function": fr["function"]}, status=fr["status"], scope=scope_of(fr["function"]),
                                               obligations=len(fr["results"]), paths=fr.get("paths"), variants=fr.get("variants"))
                                          for fr in freps],
             "obligation_list": ob_list[:400],
@@ -362,7 +393,7 @@ def check_property(pid: str, tier: str) -> int:
             "samples": ([o["obligation"] for o in ob_list[:3]] + (oracle.get("samples", [])[:2] if oracle else [])) or ["(none)"],
             "evaluations": (oracle or {}).get("cases", 0) + obligations,
             "distinct_nontrivial": max(2, (oracle or {}).get("distinct_nontrivial", 0)) if (oracle or obligations >= 2) else 0,
-            "explanation": P.get("explanation", ""),
+            "explanation": P.get("explanation", "") or "contract-based deductive verification of the listed functions (see level text in MANIFEST.json)",
             "undecided": undecided[:20], "checker_errors": errors[:20],
         },
         "assumptions": assumptions.COMMON + list(P.get("assumptions", [])) + [f"assumed contract: {t}" for t in trusted],
@@ -373,7 +404,9 @@ def check_property(pid: str, tier: str) -> int:
     (EVID / f"{pid}.json").write_text(json.dumps(ev, indent=1, default=str))
     for ln in lines:
         print(ln)
-    print(f"{pid} [{tier}]: {discharged}/{obligations} obligations discharged over {len(funcs)} functions, {len(lres)} lemmas; "
+    print(f"{pid} [{tier}]: {discharged}/{obligations} obligations discharged ({by_scope['all-inputs']} all-inputs, "
+          f"{by_scope['bounded-instances']} bounded-instances, {by_scope['syntactic']} syntactic, {by_scope['lemmas (induction, all inputs)']} lemma) "
+          f"over {len(funcs)} functions, {len(lres)} lemmas; "
           f"oracle cases={(oracle or {}).get('cases', 0)}; violations={vcount}; undecided={len(undecided)}; errors={len(errors)}; "
           f"{time.time() - t0:.1f}s")
     if vcount:
